@@ -147,6 +147,8 @@ pub struct Profile {
     pub chunk: u32,
     /// allow DECCOLM (132-column switch; expensive)
     pub deccolm: bool,
+    /// chance (of 256), per operation, that a truncated multi-byte character is fed first (ByteParser UTF-8)
+    pub tail: u32,
 }
 
 impl Profile {
@@ -160,6 +162,7 @@ impl Profile {
             parser_kind: 3,
             chunk: 64,
             deccolm: true,
+            tail: 3,
         }
     }
 }
@@ -567,17 +570,41 @@ pub fn feed_ops(src: &mut Src, seq: &str, kind: u32, chunk: u32, out: &mut Vec<O
         }
     }
     // rarely the decoding mode is switched between two chunks of the same sequence (and back)
-    if out.len() > before + 1 && src.chance(8) {
+    if out.len() > before + 1 && src.chance(14) {
         let at = before + 1 + src.below((out.len() - before - 1) as u32) as usize;
         if kind == 0 {
             let flip = src.chance(128);
             out.insert(at, Op::SetUtf8(flip));
             out.push(Op::SetUtf8(true));
-        } else {
+        } else if src.chance(128) {
             let (a, b) = if kind == 2 { ("G", "@") } else { ("@", "G") };
             out.insert(at, Op::SelCharset(a.into()));
             out.push(Op::SelCharset(b.into()));
+        } else {
+            // selecting the mode that is already active (possibly in the middle of a multi-byte
+            // character): must change nothing
+            let same = if kind == 2 { "@" } else { *src.pick(&["G", "8"]) };
+            out.insert(at, Op::SelCharset(same.into()));
         }
+    }
+}
+
+/// Between the feed() calls of a chunked byte stream: bursts of mode selections (also redundant
+/// ones, also a switch away and straight back with nothing fed in between) and empty feeds.
+pub fn switch_bursts(src: &mut Src, ops: &mut Vec<Op>) {
+    let n = 1 + src.below(2);
+    for _ in 0..n {
+        let at = src.below(ops.len() as u32 + 1) as usize;
+        let k = 1 + src.below(3) as usize;
+        let burst: Vec<Op> = (0..k)
+            .map(|_| match src.weighted(&[4, 3, 1, 3]) {
+                0 => Op::SelCharset("@".into()),
+                1 => Op::SelCharset("G".into()),
+                2 => Op::SelCharset("8".into()),
+                _ => Op::FeedBytes(Vec::new()),
+            })
+            .collect();
+        ops.splice(at..at, burst);
     }
 }
 
@@ -598,6 +625,7 @@ pub fn history(src: &mut Src, p: &Profile) -> Case {
     let w = p.w.as_vec();
     let (mut c, mut l) = (cols, lines);
     let mut kind = kind;
+    let mut cont: Option<Vec<u8>> = None;
     for _ in 0..n {
         if src.exhausted() {
             break;
@@ -617,9 +645,44 @@ pub fn history(src: &mut Src, p: &Profile) -> Case {
             }
         }
         let g = src.weighted(&w);
+        // an unfinished multi-byte character is left in the byte decoder before whatever comes next
+        // (and sometimes its remaining bytes arrive right after that operation)
+        if let Some(c) = cont.take() {
+            if kind == 1 {
+                ops.push(Op::FeedBytes(c));
+            }
+        }
+        if kind == 1 && src.chance(p.tail) {
+            let (lead, rest) = *src.pick::<(&[u8], &[u8])>(&[
+                (b"\xc3", b"\xa9"),
+                (b"\xe4", b"\xb8\xad"),
+                (b"\xe4\xb8", b"\xad"),
+                (b"\xf0\x9f", b"\x98\x80"),
+                (b"\xf0\x9f\x98", b"\x80z"),
+                (b"\xe2\x82", b"\xacz"),
+                (b"a\xe2\x82", b"\xac"),
+            ]);
+            ops.push(Op::FeedBytes(lead.to_vec()));
+            if src.chance(140) {
+                cont = Some(rest.to_vec());
+            }
+        }
         if g == 15 {
             let s = stream(src, 6, false);
-            feed_ops(src, &s, kind, p.chunk, &mut ops);
+            if kind == 1 && src.chance(40) {
+                // ill-formed and truncated UTF-8 inside a history
+                let mut b = encode(&s, false);
+                let extra = utf8_soup(src, 2);
+                let at = if src.chance(100) { 0 } else { src.below(b.len() as u32 + 1) as usize };
+                b.splice(at..at, extra);
+                if src.chance(p.chunk) {
+                    chunk_bytes(src, &b, &mut ops);
+                } else {
+                    ops.push(Op::FeedBytes(b));
+                }
+            } else {
+                feed_ops(src, &s, kind, p.chunk, &mut ops);
+            }
             continue;
         }
         let mut tmp = Vec::new();
@@ -857,7 +920,7 @@ pub fn utf8_soup(src: &mut Src, max_items: u32) -> Vec<u8> {
             8 => v.push(src.byte()),
             9 => v.extend_from_slice(src.pick::<&[u8]>(&[
                 b"\x1b[2J", b"\x1b[1;2H", b"\r\n", b"\x1b]2;t\x07", b"\x1b[31m", b"\x1b[", b"\x1b",
-                b"\x07", b"\x1b(0",
+                b"\x07", b"\x1b(0", b"\x1b%@", b"\x1b%G", b"\x1b%8", b"\x1b%", b"\x1bc",
             ])),
             _ => {
                 let c = *src.pick(&['\u{4e2d}', '\u{1f600}', '\u{e9}', '\u{416}']);
